@@ -103,11 +103,20 @@ Definition group_next_id (g : sgroup) : option N * sgroup :=
   | r => r
   end.
 
-(** [use_a && !a.has_next() || !use_a && b.has_next()] -> renew A, else renew B (literal) *)
-Definition group_apply_range (g : sgroup) (start len : N) : sgroup :=
+(** apply_range (repaired: "fix: SeqGroup::apply_range keeps the older range current"):
+    first switch to the spare range when the current one is used up and the spare still has
+    ids; then [use_a && !a.has_next() || !use_a && b.has_next()] -> renew A, else renew B *)
+Definition group_apply_range_old (g : sgroup) (start len : N) : sgroup :=
   if (g_use_a g && negb (range_has_next (g_a g))) || (negb (g_use_a g) && range_has_next (g_b g))
   then mkGroup (range_new start len) (g_b g) (g_use_a g) (g_step g) (g_adding g)
   else mkGroup (g_a g) (range_new start len) (g_use_a g) (g_step g) (g_adding g).
+
+Definition group_apply_range (g : sgroup) (start len : N) : sgroup :=
+  let g1 :=
+    if (g_use_a g && negb (range_has_next (g_a g)) && range_has_next (g_b g))
+       || (negb (g_use_a g) && negb (range_has_next (g_b g)) && range_has_next (g_a g))
+    then group_switch g else g in
+  group_apply_range_old g1 start len.
 
 Definition group_mark (g : sgroup) : sgroup := mkGroup (g_a g) (g_b g) (g_use_a g) (g_step g) true.
 Definition group_clear (g : sgroup) : sgroup := mkGroup (g_a g) (g_b g) (g_use_a g) (g_step g) false.
@@ -115,3 +124,51 @@ Definition group_clear (g : sgroup) : sgroup := mkGroup (g_a g) (g_b g) (g_use_a
 Definition group_need_apply (g : sgroup) : bool :=
   if g_adding g then false
   else negb (range_has_next (g_a g)) || negb (range_has_next (g_b g)).
+
+(** * SequenceManager glue (src/sequence/mod.rs): do_next_id and the two asynchronous paths.
+    A node holds one SeqGroup per key; the replicated counter is a [seqdb]. *)
+Definition node_groups := list (str * sgroup).
+
+Definition SEQ_STEP : N := 100.
+
+(** do_next_id *)
+Definition mgr_do_next (ng : node_groups) (k : str) : node_groups * (option N * bool) :=
+  match sm_get str_cmp ng k with
+  | Some g => let '(v, g') := group_next_id g in
+              (sm_put str_cmp ng k g', (v, group_need_apply g'))
+  | None => (sm_put str_cmp ng k (group_new SEQ_STEP), (None, true))
+  end.
+
+(** GetNextId: cached id, or NextRange round trip + handle_result(UseFromRange) *)
+Definition mgr_get (ng : node_groups) (db : seqdb) (k : str) : node_groups * seqdb * option N :=
+  let '(ng1, (v, _)) := mgr_do_next ng k in
+  match v with
+  | Some id => (ng1, db, Some id)
+  | None =>
+      let '(db', start) := db_next_range db k SEQ_STEP in
+      let ng2 := match sm_get str_cmp ng1 k with
+                 | Some g => sm_put str_cmp ng1 k (group_apply_range g start SEQ_STEP)
+                 | None => ng1
+                 end in
+      let '(ng3, (v2, _)) := mgr_do_next ng2 k in
+      (ng3, db', v2)
+  end.
+
+(** FillRange, first half: need_apply -> mark_apply -> NextRange; returns the range in flight *)
+Definition mgr_fill_start (ng : node_groups) (db : seqdb) (k : str)
+  : node_groups * seqdb * option (N * N) :=
+  match sm_get str_cmp ng k with
+  | Some g =>
+      if group_need_apply g then
+        let '(db', start) := db_next_range db k SEQ_STEP in
+        (sm_put str_cmp ng k (group_mark g), db', Some (start, SEQ_STEP))
+      else (ng, db, None)
+  | None => (ng, db, None)
+  end.
+
+(** FillRange, second half: handle_result(FillRange): apply_range + clear_apply_mark *)
+Definition mgr_fill_finish (ng : node_groups) (k : str) (r : N * N) : node_groups :=
+  match sm_get str_cmp ng k with
+  | Some g => sm_put str_cmp ng k (group_clear (group_apply_range g (fst r) (snd r)))
+  | None => ng
+  end.
